@@ -296,7 +296,12 @@ func (g *Graph) emitBody(b *strings.Builder, ind string) {
 			case "signal":
 				fmt.Fprintf(b, "%s  <bpmn:signalEventDefinition id=\"%s_ed%d\" signalRef=\"%s\"/>\n", ind, n.ID, i, e.Ref)
 			case "message":
-				fmt.Fprintf(b, "%s  <bpmn:messageEventDefinition id=\"%s_ed%d\" messageRef=\"%s\"/>\n", ind, n.ID, i, e.Ref)
+				// a reference "m#op" stands for message m with operation op
+				if base, op, ok := strings.Cut(e.Ref, "#"); ok {
+					fmt.Fprintf(b, "%s  <bpmn:messageEventDefinition id=\"%s_ed%d\" messageRef=\"%s\"><bpmn:operationRef>%s</bpmn:operationRef></bpmn:messageEventDefinition>\n", ind, n.ID, i, base, op)
+				} else {
+					fmt.Fprintf(b, "%s  <bpmn:messageEventDefinition id=\"%s_ed%d\" messageRef=\"%s\"/>\n", ind, n.ID, i, e.Ref)
+				}
 			case "timer":
 				parts := strings.SplitN(e.Timer, ":", 2)
 				el := map[string]string{"D": "timeDuration", "C": "timeCycle", "T": "timeDate"}[parts[0]]
